@@ -92,7 +92,12 @@ def collect(rep, runs, rules, wheres=None, rename=None, only_entry=None):
             if wheres is not None and s.where not in wheres:
                 continue
             rule = rename.get(s.rule, s.rule) if rename else s.rule
-            rep.add(rule, s.where, s.construct, s.status, s.detail,
+            detail = s.detail
+            if s.status == 'violation' and s.stack and len(s.stack) > 1 and \
+                    s.where.startswith('utils.'):
+                detail = '%s; call path %s' % (detail, ' > '.join(
+                    str(x) for x in s.stack))
+            rep.add(rule, s.where, s.construct, s.status, detail,
                     line=getattr(s.node, 'lineno', None),
                     file=s.mod.path if s.mod else None, facts=s.facts)
             n += 1
